@@ -131,6 +131,7 @@ broadcast use auto::psc_auto;
 //@module wrapper_ref props=C01,C06,C07,C16
 impl<'a, T: Encode + ?Sized> Encode for &'a T {
     open spec fn spec_enc(&self) -> Seq<u8> { (**self).spec_enc() }
+    open spec fn enc_ok(&self) -> bool { (**self).enc_ok() }
     #[verifier::external_body]
     fn size_hint(&self) -> usize { 0 }
     //@fn wrapper.ref.using_encoded :: codec | impl<T,X>Encode for X where T:Encode + ?Sized,X:WrapperTypeEncode<Target = T> | using_encoded
@@ -149,6 +150,7 @@ broadcast use auto::psc_auto;
 //@module compact_enc_u8 props=C01,C04,C07,C15
 impl Encode for CompactRef<'_, u8> {
     open spec fn spec_enc(&self) -> Seq<u8> { compact(*self.0 as nat) }
+    open spec fn enc_ok(&self) -> bool { true }
     #[verifier::external_body]
     fn size_hint(&self) -> usize { 0 }
     //@fn compact.u8.encode_to :: compact | impl Encode for CompactRef<'_,u8> | encode_to
@@ -178,6 +180,7 @@ broadcast use auto::psc_auto;
 //@module compact_enc_u16 props=C01,C04,C07,C15
 impl Encode for CompactRef<'_, u16> {
     open spec fn spec_enc(&self) -> Seq<u8> { compact(*self.0 as nat) }
+    open spec fn enc_ok(&self) -> bool { true }
     #[verifier::external_body]
     fn size_hint(&self) -> usize { 0 }
     //@fn compact.u16.encode_to :: compact | impl Encode for CompactRef<'_,u16> | encode_to
@@ -206,6 +209,7 @@ broadcast use auto::psc_auto;
 //@module compact_enc_u32 props=C01,C04,C07,C15
 impl Encode for CompactRef<'_, u32> {
     open spec fn spec_enc(&self) -> Seq<u8> { compact(*self.0 as nat) }
+    open spec fn enc_ok(&self) -> bool { true }
     #[verifier::external_body]
     fn size_hint(&self) -> usize { 0 }
     //@fn compact.u32.encode_to :: compact | impl Encode for CompactRef<'_,u32> | encode_to
@@ -248,6 +252,7 @@ broadcast use auto::psc_auto;
 //@module compact_enc_$T props=C01,C04,C07,C15
 impl Encode for CompactRef<'_, $T> {
     open spec fn spec_enc(&self) -> Seq<u8> { compact(*self.0 as nat) }
+    open spec fn enc_ok(&self) -> bool { true }
     #[verifier::external_body]
     fn size_hint(&self) -> usize { 0 }
     //@fn compact.$T.encode_to :: compact | impl Encode for CompactRef<'_,$T> | encode_to
@@ -329,6 +334,7 @@ broadcast use auto::psc_auto;
 //@module compact_fwd_$M props=C01,C04,C07,C16
 impl Encode for Compact<$T> {
     open spec fn spec_enc(&self) -> Seq<u8> { CompactRef(&self.0).spec_enc() }
+    open spec fn enc_ok(&self) -> bool { true }
     #[verifier::external_body]
     fn size_hint(&self) -> usize { 0 }
     //@fn compact.fwd.$M.encode_to :: compact | impl<T>Encode for Compact<T>where for<'a>CompactRef<'a,T>:Encode | encode_to
